@@ -220,18 +220,817 @@ fn measure_groups(cx: &Ctx) -> Result<Vec<GroupInfo>, String> {
     Ok(out)
 }
 
-fn main() {
-    let cons = consensus();
-    let progs = programs();
-    for p in &progs {
-        let spec = TxSpec { scripts: vec![(p.clone(), Slot::Lock, 0)], type_id: false };
-        let cx = Ctx::new(&spec, &cons);
-        let t = std::time::Instant::now();
-        let r = cx.verify(u64::MAX);
-        let dt = t.elapsed();
-        let gi = measure_groups(&cx);
-        println!("{:32} v{} groups={} whole={:?} {:?} groups={:?}", p.name, p.ver, cx.n_groups, r, dt, gi);
+
+// ---------------------------------------------------------------------------
+// chunked runs
+// ---------------------------------------------------------------------------
+#[derive(Clone, Debug, PartialEq)]
+struct Susp {
+    current: usize,
+    cycles: u64,
+    limit: u64,
+    /// total_cycles of the captured scheduler state; None = no state (TYPE_ID restart)
+    progress: Option<u64>,
+}
+#[derive(Clone, Debug, PartialEq)]
+enum End {
+    Done(u64),
+    Err(TErr),
+    /// still suspended when the list of limits ended
+    Open,
+    Panic(String),
+}
+struct ChunkRun {
+    limits: Vec<u64>,
+    susp: Vec<Susp>,
+    end: End,
+    last: Option<TransactionState>,
+}
+
+fn susp_of(st: &TransactionState) -> Susp {
+    Susp {
+        current: st.current,
+        cycles: st.current_cycles,
+        limit: st.limit_cycles,
+        progress: st.state.as_ref().map(|s| s.total_cycles),
     }
-    let _ = (seed(), json!(null), fs::metadata("."), Value::Null, ChunkCommand::Resume);
-    let _: Option<(TransactionState, VerifyResult, Rng)> = None;
+}
+
+/// `next(i, previous limit, previous chunk made no progress)` gives the limit
+/// of chunk i, None = stop (state stays open).
+fn run_chunks(cx: &Ctx, skip_pause: bool, next: &mut dyn FnMut(usize, u64, bool) -> Option<u64>, cap: usize) -> ChunkRun {
+    let v = cx.verifier(skip_pause);
+    let mut run = ChunkRun { limits: vec![], susp: vec![], end: End::Open, last: None };
+    let mut prev_limit = 0u64;
+    let mut no_progress = false;
+    for i in 0..cap {
+        let limit = match next(i, prev_limit, no_progress) {
+            Some(l) => l,
+            None => break,
+        };
+        run.limits.push(limit);
+        prev_limit = limit;
+        let st = run.last.take();
+        let r = catch_unwind(AssertUnwindSafe(|| match &st {
+            None => v.resumable_verify(limit),
+            Some(s) => v.resume_from_state(s, limit),
+        }));
+        match r {
+            Err(p) => {
+                run.end = End::Panic(panic_text(p));
+                return run;
+            }
+            Ok(Err(e)) => {
+                run.end = End::Err(cx.classify(&e));
+                return run;
+            }
+            Ok(Ok(VerifyResult::Completed(c))) => {
+                run.end = End::Done(c);
+                return run;
+            }
+            Ok(Ok(VerifyResult::Suspended(ns))) => {
+                let s = susp_of(&ns);
+                no_progress = match run.susp.last() {
+                    Some(p) => p.current == s.current && p.progress == s.progress,
+                    None => s.current == 0 && s.progress.unwrap_or(0) == 0,
+                };
+                run.susp.push(s);
+                run.last = Some(ns);
+            }
+        }
+    }
+    run
+}
+
+fn complete(cx: &Ctx, st: &TransactionState, max: u64) -> Res {
+    let v = cx.verifier(true);
+    cx.res(catch_unwind(AssertUnwindSafe(|| v.complete(st, max))))
+}
+
+// ---------------------------------------------------------------------------
+// signal-driven runs
+// ---------------------------------------------------------------------------
+#[derive(Clone, Debug)]
+enum Sig {
+    /// (microseconds to wait before, command 0=Suspend 1=Resume 2=Stop)
+    Timed(Vec<(u64, u8)>),
+    /// park the VM at its first debug-pause syscall, send Suspend, release the
+    /// VM, then Resume: a deterministic mid-run pause
+    AtPause,
+}
+
+fn cmd(c: u8) -> ChunkCommand {
+    match c {
+        0 => ChunkCommand::Suspend,
+        1 => ChunkCommand::Resume,
+        _ => ChunkCommand::Stop,
+    }
+}
+
+/// returns (result, the pause really happened mid-run (AtPause only))
+fn run_signal(cx: &Ctx, rt: &tokio::runtime::Runtime, limit: u64, sig: &Sig) -> (Res, bool) {
+    let gate = match sig {
+        Sig::AtPause => Some(Arc::new(Gate::default())),
+        _ => None,
+    };
+    let ctx = new_pause_ctx(true, gate.clone());
+    let v = build_verifier(&cx.rtx, &cx.cons, ctx);
+    let sig = sig.clone();
+    let mut landed = false;
+    let r = catch_unwind(AssertUnwindSafe(|| {
+        rt.block_on(async {
+            let (tx, mut rx) = tokio::sync::watch::channel(ChunkCommand::Resume);
+            let tx = Arc::new(tx);
+            let tx2 = Arc::clone(&tx);
+            let g2 = gate.clone();
+            let driver = tokio::task::spawn_blocking(move || {
+                let mut landed = false;
+                match sig {
+                    Sig::Timed(steps) => {
+                        for (us, c) in steps {
+                            std::thread::sleep(std::time::Duration::from_micros(us));
+                            let _ = tx2.send(cmd(c));
+                        }
+                    }
+                    Sig::AtPause => {
+                        let g = g2.unwrap();
+                        if g.wait_arrival(1, 3000) {
+                            landed = true;
+                            let _ = tx2.send(ChunkCommand::Suspend);
+                            std::thread::sleep(std::time::Duration::from_millis(3));
+                            g.release_all();
+                            std::thread::sleep(std::time::Duration::from_millis(3));
+                            let _ = tx2.send(ChunkCommand::Resume);
+                        } else {
+                            g.release_all();
+                        }
+                    }
+                }
+                landed
+            });
+            let fut = v.resumable_verify_with_signal(limit, &mut rx);
+            let r = match tokio::time::timeout(std::time::Duration::from_secs(20), fut).await {
+                Ok(r) => Some(r),
+                Err(_) => None,
+            };
+            if let Some(g) = &gate {
+                g.release_all();
+            }
+            landed = driver.await.unwrap_or(false);
+            drop(tx);
+            r
+        })
+    }));
+    match r {
+        Err(p) => (Res::Panic(panic_text(p)), landed),
+        Ok(None) => (Res::Panic("timeout: resumable_verify_with_signal did not return within 20 s".into()), landed),
+        Ok(Some(Ok(c))) => (Res::Ok(c), landed),
+        Ok(Some(Err(e))) => (Res::Err(cx.classify(&e)), landed),
+    }
+}
+
+// ---------------------------------------------------------------------------
+// JSON / Coq rendering
+// ---------------------------------------------------------------------------
+fn cause_json(c: &Cause) -> Value {
+    match c {
+        Cause::Exceeded(n) => json!({"ExceededMaximumCycles": n}),
+        Cause::Overflow => json!("CyclesOverflow"),
+        Cause::Other => json!("Other"),
+        Cause::Script(k) => json!({"script_failure_class": k}),
+        Cause::Interrupts => json!("Interrupts"),
+    }
+}
+fn terr_json(e: &TErr) -> Value {
+    json!({"group": e.src, "cause": cause_json(&e.cause)})
+}
+fn res_json(r: &Res) -> Value {
+    match r {
+        Res::Ok(c) => json!({"ok": c}),
+        Res::Err(e) => json!({"err": terr_json(e)}),
+        Res::Panic(p) => json!({"panic": p}),
+    }
+}
+fn end_json(e: &End) -> Value {
+    match e {
+        End::Done(c) => json!({"completed": c}),
+        End::Err(e) => json!({"err": terr_json(e)}),
+        End::Open => json!("still-suspended"),
+        End::Panic(p) => json!({"panic": p}),
+    }
+}
+fn susp_json(s: &Susp) -> Value {
+    json!({"current": s.current, "current_cycles": s.cycles, "limit_cycles": s.limit, "vm_total_cycles": s.progress})
+}
+fn spec_json(spec: &TxSpec) -> Value {
+    json!({
+        "scripts": spec.scripts.iter().map(|(p, s, salt)| json!({"prog": p.name, "ver": p.ver, "slot": format!("{:?}", s), "salt": salt})).collect::<Vec<_>>(),
+        "type_id": spec.type_id,
+    })
+}
+fn spec_name(spec: &TxSpec) -> String {
+    let mut s: Vec<String> = spec.scripts.iter().map(|(p, sl, _)| format!("{}.v{}{}", p.name, p.ver, match sl { Slot::Lock => "", Slot::Lock2 => "x2", Slot::TypeOut => "@type" })).collect();
+    if spec.type_id {
+        s.push("TYPE_ID".into());
+    }
+    s.join("+")
+}
+fn spec_from_json(v: &Value, progs: &[Prog]) -> TxSpec {
+    let mut scripts = Vec::new();
+    for s in v["scripts"].as_array().unwrap() {
+        let name = s["prog"].as_str().unwrap();
+        let ver = s["ver"].as_u64().unwrap() as u8;
+        let p = progs.iter().find(|p| p.name == name && p.ver == ver).expect("program").clone();
+        let slot = match s["slot"].as_str().unwrap() {
+            "Lock2" => Slot::Lock2,
+            "TypeOut" => Slot::TypeOut,
+            _ => Slot::Lock,
+        };
+        scripts.push((p, slot, s["salt"].as_u64().unwrap() as u8));
+    }
+    TxSpec { scripts, type_id: v["type_id"].as_bool().unwrap_or(false) }
+}
+
+fn coq_cause(c: &Cause) -> String {
+    match c {
+        Cause::Exceeded(n) => format!("(OExceeded {})", coq_n(*n as u128)),
+        Cause::Overflow => "OOverflow".into(),
+        Cause::Other => "OOther".into(),
+        Cause::Script(k) => format!("(OScript {})", coq_n(*k as u128)),
+        Cause::Interrupts => "OOther".into(),
+    }
+}
+fn coq_terr(e: &TErr) -> String {
+    format!("({}, {})", coq_option(&e.src, |i| coq_nat(*i as u64)), coq_cause(&e.cause))
+}
+fn coq_res(r: &Res) -> String {
+    match r {
+        Res::Ok(c) => format!("(OOk {})", coq_n(*c as u128)),
+        Res::Err(e) => format!("(OErr {})", coq_terr(e)),
+        Res::Panic(_) => "OPanic".into(),
+    }
+}
+fn coq_end(e: &End) -> String {
+    match e {
+        End::Done(c) => format!("(EDone {})", coq_n(*c as u128)),
+        End::Err(e) => format!("(EErr {})", coq_terr(e)),
+        End::Open => "EOpen".into(),
+        End::Panic(_) => "EPanic".into(),
+    }
+}
+fn coq_susp(s: &Susp) -> String {
+    format!(
+        "(mkS {} {} {} {})",
+        coq_nat(s.current as u64),
+        coq_n(s.cycles as u128),
+        coq_n(s.limit as u128),
+        coq_option(&s.progress, |p| coq_n(*p as u128))
+    )
+}
+fn coq_groups(gs: &[GroupInfo]) -> String {
+    coq_list(gs, |g| format!("(mkG {} {} {})", coq_bool(g.type_id), coq_n(g.cost as u128), coq_option(&g.fail, |c| coq_n(*c as u128))))
+}
+
+// ---------------------------------------------------------------------------
+// the property predicate, written from the property text
+// ---------------------------------------------------------------------------
+struct Whole {
+    res: Res,
+    /// success: total cycles; failure: the smallest budget with which the
+    /// uninterrupted run reports the failure itself
+    cost: u64,
+}
+
+struct Violation {
+    what: String,
+    detail: Value,
+    signature: Option<String>,
+}
+
+/// budget semantics: `r` is the answer of a run that was given the cycle budget `max`
+fn check_budget(w: &Whole, max: u64, r: &Res) -> Option<String> {
+    if max >= w.cost {
+        if !r.same_verdict(&w.res) || matches!(r, Res::Panic(_)) {
+            return Some(format!("budget {} >= uninterrupted cost {} but the answer {} differs from the unlimited run {}", max, w.cost, res_json(r), res_json(&w.res)));
+        }
+    } else if !r.is_exceeded() {
+        return Some(format!("budget {} < uninterrupted cost {} but the run answered {} instead of ExceededMaximumCycles", max, w.cost, res_json(r)));
+    }
+    None
+}
+
+/// a chunked run that came to an end must agree with the unlimited run
+fn check_chunk_end(w: &Whole, e: &End) -> Option<String> {
+    let r = match e {
+        End::Open => return None,
+        End::Done(c) => Res::Ok(*c),
+        End::Err(e) => Res::Err(e.clone()),
+        End::Panic(p) => Res::Panic(p.clone()),
+    };
+    if matches!(r, Res::Panic(_)) || r.is_exceeded() || !r.same_verdict(&w.res) {
+        return Some(format!("chunked run ended with {} but the uninterrupted run gives {}", res_json(&r), res_json(&w.res)));
+    }
+    None
+}
+
+// ---------------------------------------------------------------------------
+// generation
+// ---------------------------------------------------------------------------
+fn gen_specs(rng: &mut Rng, progs: &[Prog], thorough: bool) -> Vec<TxSpec> {
+    let mut specs = Vec::new();
+    // every program alone
+    for p in progs {
+        specs.push(TxSpec { scripts: vec![(p.clone(), Slot::Lock, 0)], type_id: false });
+    }
+    // regression corpus: the shapes of script/src/verify/tests
+    let find = |n: &str, v: u8| progs.iter().find(|p| p.name == n && p.ver == v).unwrap().clone();
+    specs.push(TxSpec { scripts: vec![(find("always_success", 1), Slot::Lock, 0)], type_id: true });
+    specs.push(TxSpec { scripts: vec![(find("always_success", 2), Slot::Lock2, 0), (find("cpop_lock", 1), Slot::Lock, 0)], type_id: true });
+    let floating: Vec<&Prog> = progs.iter().filter(|p| p.deps.is_empty() && p.witness.is_none()).collect();
+    let anchored: Vec<&Prog> = progs.iter().filter(|p| !p.deps.is_empty() || p.witness.is_some()).collect();
+    let n_multi = if thorough { 260 } else { 36 };
+    for _ in 0..n_multi {
+        let mut scripts: Vec<(Prog, Slot, u8)> = Vec::new();
+        if rng.chance(2, 3) {
+            let a = (*rng.pick(&anchored)).clone();
+            scripts.push((a, Slot::Lock, 0));
+        }
+        let nf = rng.range(1, 3);
+        let mut salt = 1u8;
+        for _ in 0..nf {
+            let f = (*rng.pick(&floating)).clone();
+            // mostly succeeding companions, so that later groups are reached
+            if f.name != "always_success" && f.name != "cpop_lock" && f.name != "mop_adc_lock" && f.name != "current_cycles" && rng.chance(1, 2) {
+                continue;
+            }
+            let slot = match rng.below(5) {
+                0 => Slot::Lock2,
+                1 => Slot::TypeOut,
+                _ => Slot::Lock,
+            };
+            let s = if f.salt_ok { salt } else { 0 };
+            salt += 1;
+            if scripts.iter().any(|(p, sl, sa)| p.name == f.name && p.ver == f.ver && *sa == s && (*sl == Slot::TypeOut) == (slot == Slot::TypeOut)) {
+                continue;
+            }
+            scripts.push((f, slot, s));
+        }
+        if scripts.is_empty() {
+            continue;
+        }
+        specs.push(TxSpec { scripts, type_id: rng.chance(1, 3) });
+    }
+    specs
+}
+
+#[derive(Clone, Debug)]
+enum Strat {
+    /// constant step
+    Fixed(u64),
+    /// the tests' next_limit_cycles style: the limit grows by `step` every chunk
+    Growing(u64),
+    /// log-uniform random limits in [lo, hi]
+    Random(u64, u64),
+    /// explicit limits, then unlimited
+    List(Vec<u64>),
+}
+
+fn log_uniform(r: &mut Rng, lo: u64, hi: u64) -> u64 {
+    let lo = lo.max(1);
+    let hi = hi.max(lo);
+    let a = (lo as f64).ln();
+    let b = (hi as f64).ln();
+    let x = a + (b - a) * (r.below(1 << 30) as f64 / (1u64 << 30) as f64);
+    (x.exp() as u64).clamp(lo, hi)
+}
+
+fn limiter<'a>(strat: &'a Strat, rng: &'a mut Rng) -> impl FnMut(usize, u64, bool) -> Option<u64> + 'a {
+    move |i, prev, stuck| {
+        let base = match strat {
+            Strat::Fixed(s) => *s,
+            Strat::Growing(s) => prev.saturating_add(*s),
+            Strat::Random(lo, hi) => log_uniform(rng, *lo, *hi),
+            Strat::List(l) => {
+                if i < l.len() {
+                    l[i]
+                } else {
+                    u64::MAX
+                }
+            }
+        };
+        // a chunk smaller than the next atomic step cannot make progress: widen
+        Some(if stuck { base.max(prev.saturating_mul(2)).max(1024) } else { base })
+    }
+}
+
+struct Out {
+    files: Vec<CaseFile>,
+    descs: Vec<BTreeMap<String, Vec<Value>>>,
+    bytes: Vec<usize>,
+    next: usize,
+    emitted: u64,
+    skipped_big: u64,
+}
+impl Out {
+    fn push(&mut self, group: usize, label: &str, case: String, desc: Value) {
+        // keep every shard under ~400 KB
+        let sh = self.next % self.files.len();
+        self.next += 1;
+        if self.bytes[sh] + case.len() > 400_000 {
+            self.skipped_big += 1;
+            return;
+        }
+        self.bytes[sh] += case.len();
+        self.files[sh].push(group, case);
+        self.descs[sh].entry(label.into()).or_default().push(desc);
+        self.emitted += 1;
+    }
+}
+
+fn known_signature(kind: &str) -> Option<String> {
+    Some(kind.to_string())
+}
+
+fn main() {
+    let progs = programs();
+    let cons = consensus();
+    let rt = tokio::runtime::Builder::new_multi_thread().worker_threads(3).enable_all().build().unwrap();
+    if let Ok(p) = std::env::var("HX_REPLAY") {
+        replay(&p, &progs, &cons, &rt);
+    }
+    let seed = seed();
+    let thorough = tier_is_thorough();
+    let out = out_dir("C05");
+    for e in fs::read_dir(&out).unwrap().flatten() {
+        let n = e.file_name().to_string_lossy().to_string();
+        if n.starts_with("cases_") || n == "summary.json" {
+            let _ = fs::remove_file(e.path());
+        }
+    }
+    let mut rng = Rng::new(seed);
+    let mut stats: BTreeMap<String, u64> = BTreeMap::new();
+    let mut viol: Vec<Violation> = Vec::new();
+    let mut samples: Vec<Value> = Vec::new();
+    let mut distinct = std::collections::BTreeSet::new();
+    let mut evaluations = 0u64;
+    let shards = 16usize;
+    let header = "From CKB Require Import Script.Chunk Script.ChunkCases.";
+    let mut o = Out {
+        files: (0..shards)
+            .map(|i| {
+                let mut cf = CaseFile::new(&out, &format!("cases_{:02}", i), header);
+                cf.group("run", "case", "check_case");
+                cf
+            })
+            .collect(),
+        descs: (0..shards).map(|_| BTreeMap::new()).collect(),
+        bytes: vec![0; shards],
+        next: 0,
+        emitted: 0,
+        skipped_big: 0,
+    };
+    macro_rules! bump {
+        ($k:expr) => {
+            *stats.entry($k.to_string()).or_default() += 1
+        };
+    }
+
+    let specs = gen_specs(&mut rng, &progs, thorough);
+    let n_part = if thorough { 400 } else { 40 };
+    let cap = if thorough { 4000 } else { 600 };
+    for spec in &specs {
+        let cx = Ctx::new(spec, &cons);
+        let name = spec_name(spec);
+        let sj = spec_json(spec);
+        let whole_res = cx.verify(u64::MAX);
+        let groups = match measure_groups(&cx) {
+            Ok(g) => g,
+            Err(e) => {
+                viol.push(Violation { what: format!("cannot measure the groups of {name}: {e}"), detail: json!({"tx": sj}), signature: None });
+                continue;
+            }
+        };
+        bump!("transactions");
+        bump!(format!("tx_groups_{}", groups.len()));
+        bump!(format!("whole_{}", whole_res.class().chars().take_while(|c| c.is_alphabetic()).collect::<String>()));
+        // ---- the uninterrupted cost --------------------------------------
+        let cost = match &whole_res {
+            Res::Ok(c) => *c,
+            Res::Err(e) => {
+                // cycles of the groups before the failing one + cycles the failing group consumed
+                let k = e.src.unwrap_or(0);
+                groups[..k].iter().map(|g| g.cost).sum::<u64>() + groups[k].cost
+            }
+            Res::Panic(p) => {
+                viol.push(Violation { what: format!("verify(u64::MAX) panicked on {name}: {p}"), detail: json!({"tx": sj}), signature: None });
+                continue;
+            }
+        };
+        // the per-group measurements must add up to the whole run
+        let sum_ok: u64 = groups.iter().map(|g| g.cost).sum();
+        if let Res::Ok(c) = &whole_res {
+            if *c != sum_ok || groups.iter().any(|g| g.fail.is_some()) {
+                viol.push(Violation { what: format!("{name}: verify(u64::MAX) = {c} but the groups run alone cost {:?}", groups), detail: json!({"tx": sj}), signature: None });
+                continue;
+            }
+        }
+        let w = Whole { res: whole_res.clone(), cost };
+        let gj = json!(groups.iter().map(|g| json!({"type_id": g.type_id, "cost": g.cost, "fail_class": g.fail})).collect::<Vec<_>>());
+        let cg = coq_groups(&groups);
+        let mk_detail = |run: Value| json!({"tx": sj, "tx_name": name, "groups": gj, "uninterrupted": res_json(&w.res), "cost": w.cost, "run": run});
+
+        // ---- budgets: verify(max) ----------------------------------------
+        let mut budgets: Vec<u64> = vec![0, 1, cost.saturating_sub(1), cost, cost.saturating_add(1), u64::MAX, u64::MAX - 1];
+        let mut acc = 0u64;
+        for g in &groups {
+            acc += g.cost;
+            budgets.extend([acc.saturating_sub(1), acc, acc + 1]);
+        }
+        for _ in 0..6 {
+            budgets.push(rng.range(0, cost.saturating_add(cost / 4 + 2)));
+        }
+        budgets.sort();
+        budgets.dedup();
+        for max in budgets {
+            let r = cx.verify(max);
+            evaluations += 1;
+            bump!("run_verify_budget");
+            let runj = json!({"kind": "verify", "max": max, "observed": res_json(&r)});
+            if let Some(msg) = check_budget(&w, max, &r) {
+                viol.push(Violation { what: format!("{name}: verify({max}): {msg}"), detail: mk_detail(runj.clone()), signature: None });
+            }
+            o.push(0, "run", format!("mkCase {} (RVerify {} {})", cg, coq_n(max as u128), coq_res(&r)), mk_detail(runj));
+        }
+
+        // ---- chunk partitions --------------------------------------------
+        let mut strats: Vec<(Strat, bool)> = Vec::new();
+        // boundary-directed: chunks that end exactly at / one off a group boundary
+        let mut acc = 0u64;
+        for g in &groups {
+            for d in [0i64, -1, 1] {
+                let l = (acc + g.cost) as i64 + d;
+                if l >= 0 {
+                    strats.push((Strat::List(vec![l as u64]), true));
+                }
+                let l2 = g.cost as i64 + d;
+                if l2 > 0 {
+                    strats.push((Strat::Fixed(l2 as u64), true));
+                }
+            }
+            acc += g.cost;
+        }
+        strats.push((Strat::List(vec![0, 0, 1]), true));
+        strats.push((Strat::Fixed(u64::MAX), true));
+        let min_step = (cost / (cap as u64 - 50)).max(1);
+        for _ in 0..n_part {
+            let pause_mode = cx.pauses && rng.chance(1, 2);
+            let s = match rng.below(4) {
+                0 => Strat::Fixed(log_uniform(&mut rng, min_step.max(if cost < 50_000 { 1 } else { 700 }), cost.max(2))),
+                1 => Strat::Growing(log_uniform(&mut rng, (min_step / 8).max(1), cost.max(2))),
+                2 => {
+                    let lo = log_uniform(&mut rng, min_step.max(600), cost.max(601));
+                    Strat::Random(lo, lo.saturating_mul(rng.range(2, 64)))
+                }
+                _ => {
+                    let n = rng.range(1, 5);
+                    Strat::List((0..n).map(|_| rng.range(0, cost.saturating_add(2))).collect())
+                }
+            };
+            strats.push((s, !pause_mode));
+        }
+        // all split points at a coarse grain for cheap transactions
+        if cost <= 20_000 {
+            let n = if thorough { 2000 } else { 48 };
+            let grain = (cost / n).max(1);
+            let mut k = grain;
+            while k < cost {
+                strats.push((Strat::List(vec![k]), true));
+                k += grain;
+            }
+        }
+        for (si, (strat, skip_pause)) in strats.iter().enumerate() {
+            let mut r2 = rng.fork();
+            let mut lim = limiter(strat, &mut r2);
+            let run = run_chunks(&cx, *skip_pause, &mut lim, cap);
+            drop(lim);
+            evaluations += 1;
+            bump!("run_chunked");
+            *stats.entry("chunks_total".into()).or_default() += run.limits.len() as u64;
+            if run.limits.len() > 1 {
+                distinct.insert(format!("{name}:{:?}", run.limits));
+            }
+            if !*skip_pause {
+                bump!("run_chunked_with_debug_pause");
+            }
+            let runj = json!({"kind": "chunks", "skip_debug_pause": skip_pause, "limits": run.limits,
+                              "suspensions": run.susp.iter().map(susp_json).collect::<Vec<_>>(), "end": end_json(&run.end)});
+            if let Some(msg) = check_chunk_end(&w, &run.end) {
+                viol.push(Violation { what: format!("{name}: {msg}"), detail: mk_detail(runj.clone()), signature: None });
+            }
+            if run.end == End::Open {
+                bump!("run_chunked_open_at_cap");
+            }
+            // consumed cycles recorded in a state never exceed the uninterrupted cost
+            for s in &run.susp {
+                if matches!(w.res, Res::Ok(_)) && s.cycles + s.progress.unwrap_or(0) > cost {
+                    viol.push(Violation { what: format!("{name}: a suspended state holds {} + {} cycles, more than the uninterrupted cost {}", s.cycles, s.progress.unwrap_or(0), cost), detail: mk_detail(runj.clone()), signature: None });
+                    break;
+                }
+            }
+            if run.limits.len() <= 24 && *skip_pause {
+                o.push(0, "run", format!("mkCase {} (RChunks {} {} {})", cg, coq_list(&run.limits, |l| coq_n(*l as u128)), coq_list(&run.susp, coq_susp), coq_end(&run.end)), mk_detail(runj.clone()));
+            }
+            if samples.len() < 3 && run.limits.len() >= 3 && groups.len() >= 2 {
+                samples.push(mk_detail(runj.clone()));
+            }
+            // ---- complete() from an intermediate state -------------------
+            if si % 3 == 0 {
+                // re-run a prefix of this partition to get a state, then complete it
+                if run.susp.is_empty() {
+                    continue;
+                }
+                let k = rng.range(1, run.susp.len() as u64) as usize;
+                let pre: Vec<u64> = run.limits[..k].to_vec();
+                let mut it = pre.clone().into_iter();
+                let mut lim2 = move |_i: usize, _p: u64, _s: bool| it.next();
+                let run2 = run_chunks(&cx, *skip_pause, &mut lim2, cap);
+                if run2.end != End::Open || run2.last.is_none() {
+                    continue;
+                }
+                let st = run2.last.as_ref().unwrap();
+                let sp = susp_of(st);
+                let consumed = sp.cycles + sp.progress.unwrap_or(0);
+                let mut maxes = vec![u64::MAX, cost, cost.saturating_add(1), cost.saturating_sub(1)];
+                maxes.push(sp.cycles.saturating_sub(1));
+                maxes.push(cost.saturating_sub(sp.progress.unwrap_or(0)));
+                maxes.push(rng.range(0, cost));
+                maxes.sort();
+                maxes.dedup();
+                for max in maxes {
+                    let r = complete(&cx, st, max);
+                    evaluations += 1;
+                    bump!("run_complete");
+                    let runj = json!({"kind": "complete", "skip_debug_pause": skip_pause, "limits": pre, "state": susp_json(&sp), "max": max, "observed": res_json(&r)});
+                    if let Some(msg) = check_budget(&w, max, &r) {
+                        // known class: complete() grants the suspended group its
+                        // already consumed cycles on top of the budget
+                        let known = max < w.cost && matches!(w.res, Res::Ok(_)) && matches!(r, Res::Ok(c) if c == cost)
+                            && sp.progress.unwrap_or(0) > 0 && max.saturating_add(sp.progress.unwrap_or(0)) >= cost;
+                        let known_other = max < w.cost && matches!(&r, Res::Err(TErr { cause: Cause::Other, .. })) && sp.progress.unwrap_or(0) > 0;
+                        let sig = if known { known_signature("complete-budget-ignores-cycles-of-the-suspended-group") }
+                                  else if known_other { known_signature("complete-budget-ignores-cycles-of-the-suspended-group") } else { None };
+                        viol.push(Violation { what: format!("{name}: complete(state after {k} chunks [{} cycles consumed], {max}): {msg}", consumed), detail: mk_detail(runj.clone()), signature: sig });
+                    }
+                    if pre.len() <= 24 && *skip_pause {
+                        o.push(0, "run", format!("mkCase {} (RComplete {} {} {} {})", cg, coq_list(&pre, |l| coq_n(*l as u128)), coq_list(&run2.susp, coq_susp), coq_n(max as u128), coq_res(&r)), mk_detail(runj));
+                    }
+                }
+            }
+        }
+
+        // ---- pause / resume signals --------------------------------------
+        let n_sig = if thorough { 24 } else { 5 };
+        for i in 0..n_sig {
+            let limit = match i % 5 {
+                0 => u64::MAX,
+                1 => cost,
+                2 => cost.saturating_sub(1),
+                3 => cost + 1,
+                _ => rng.range(0, cost + 10),
+            };
+            let mut steps = Vec::new();
+            let n = rng.range(0, 4);
+            for _ in 0..n {
+                steps.push((rng.range(0, 400), 0u8));
+                steps.push((rng.range(0, 400), 1u8));
+            }
+            steps.push((0, 1u8));
+            let sig = Sig::Timed(steps.clone());
+            let (r, _) = run_signal(&cx, &rt, limit, &sig);
+            evaluations += 1;
+            bump!("run_signal_timed");
+            let runj = json!({"kind": "signal", "limit": limit, "commands_us": steps, "observed": res_json(&r)});
+            if let Some(msg) = check_budget(&w, limit, &r) {
+                let known = limit < w.cost && matches!(w.res, Res::Ok(_)) && (matches!(r, Res::Ok(c) if c == cost) || matches!(&r, Res::Err(TErr { cause: Cause::Other, .. }))) && n > 0;
+                viol.push(Violation { what: format!("{name}: resumable_verify_with_signal({limit}) with {n} suspend/resume pairs: {msg}"), detail: mk_detail(runj),
+                                      signature: if known { known_signature("signal-resume-restarts-the-cycle-budget") } else { None } });
+            }
+        }
+        if cx.pauses {
+            for limit in [u64::MAX, cost, cost - 1] {
+                let (r, landed) = run_signal(&cx, &rt, limit, &Sig::AtPause);
+                evaluations += 1;
+                bump!("run_signal_at_debug_pause");
+                if landed {
+                    bump!("run_signal_at_debug_pause_landed");
+                }
+                let runj = json!({"kind": "signal_at_pause", "limit": limit, "suspend_landed_mid_run": landed, "observed": res_json(&r)});
+                if let Some(msg) = check_budget(&w, limit, &r) {
+                    let known = limit < w.cost && matches!(w.res, Res::Ok(_)) && landed && (matches!(r, Res::Ok(c) if c == cost) || matches!(&r, Res::Err(TErr { cause: Cause::Other, .. })));
+                    viol.push(Violation { what: format!("{name}: resumable_verify_with_signal({limit}), Suspend while the VM sits in its debug-pause syscall, then Resume: {msg}"), detail: mk_detail(runj),
+                                          signature: if known { known_signature("signal-resume-restarts-the-cycle-budget") } else { None } });
+                }
+            }
+        }
+    }
+
+    for (i, cf) in o.files.iter().enumerate() {
+        cf.write().unwrap();
+        fs::write(out.join(format!("cases_{:02}.json", i)), serde_json::to_string(&o.descs[i]).unwrap()).unwrap();
+    }
+    stats.insert("coq_cases".into(), o.emitted);
+    stats.insert("coq_cases_dropped_size_cap".into(), o.skipped_big);
+    let summary = json!({
+        "property": "C05",
+        "seed": seed,
+        "evaluations": evaluations,
+        "distinct_nontrivial": distinct.len(),
+        "rule": "one evaluation = one run of verify(max) / a resumable_verify+resume_from_state chain / complete / resumable_verify_with_signal on a transaction built around script/testdata programs, compared with verify(u64::MAX) of the same transaction; distinct = distinct (transaction, list of chunk limits) with at least two chunks",
+        "distribution": stats,
+        "samples": samples,
+        "impl_violations": viol.iter().map(|v| {
+            let mut j = json!({"what": v.what, "detail": v.detail});
+            if let Some(s) = &v.signature { j["signature"] = json!(s); }
+            j
+        }).collect::<Vec<_>>(),
+    });
+    fs::write(out.join("summary.json"), serde_json::to_string_pretty(&summary).unwrap()).unwrap();
+    println!("hx-script: {} evaluations over {} transactions, {} coq cases, {} implementation-side violations",
+             evaluations, specs.len(), o.emitted, viol.len());
+    let mut seen = std::collections::BTreeSet::new();
+    for v in &viol {
+        let key = v.signature.clone().unwrap_or_else(|| v.what.clone());
+        if seen.insert(key) && seen.len() <= 12 {
+            println!("  violation: {}{}", v.what.chars().take(400).collect::<String>(), v.signature.as_ref().map(|s| format!(" [signature {s}]")).unwrap_or_default());
+        }
+    }
+}
+
+/// re-run the first case of a replay file on the implementation
+fn replay(path: &str, progs: &[Prog], cons: &Arc<ckb_chain_spec::consensus::Consensus>, rt: &tokio::runtime::Runtime) -> ! {
+    let v: Value = serde_json::from_str(&fs::read_to_string(path).unwrap()).unwrap();
+    let case = if let Some(vs) = v.get("violations") { vs[0]["detail"].clone() } else { v["cases"][0]["case"].clone() };
+    let spec = spec_from_json(&case["tx"], progs);
+    let cx = Ctx::new(&spec, cons);
+    let whole = cx.verify(u64::MAX);
+    let cost = case["cost"].as_u64().unwrap_or(0);
+    println!("transaction {}: verify(u64::MAX) = {} (recorded cost {})", spec_name(&spec), res_json(&whole), cost);
+    let cost_now = match &whole { Res::Ok(c) => *c, _ => cost };
+    let w = Whole { res: whole, cost: cost_now };
+    let run = &case["run"];
+    let limits: Vec<u64> = run.get("limits").and_then(|l| l.as_array()).map(|a| a.iter().map(|x| x.as_u64().unwrap()).collect()).unwrap_or_default();
+    let skip = run.get("skip_debug_pause").and_then(|b| b.as_bool()).unwrap_or(true);
+    let mut bad: Option<String> = None;
+    match run["kind"].as_str().unwrap_or("") {
+        "verify" => {
+            let max = run["max"].as_u64().unwrap();
+            let r = cx.verify(max);
+            println!("verify({max}) = {}", res_json(&r));
+            bad = check_budget(&w, max, &r);
+        }
+        "chunks" => {
+            let mut it = limits.clone().into_iter();
+            let mut lim = move |_i: usize, _p: u64, _s: bool| it.next();
+            let r = run_chunks(&cx, skip, &mut lim, limits.len() + 1);
+            println!("limits {:?}\nsuspensions {}\nend {}", r.limits, json!(r.susp.iter().map(susp_json).collect::<Vec<_>>()), end_json(&r.end));
+            bad = check_chunk_end(&w, &r.end);
+        }
+        "complete" => {
+            let mut it = limits.clone().into_iter();
+            let mut lim = move |_i: usize, _p: u64, _s: bool| it.next();
+            let r = run_chunks(&cx, skip, &mut lim, limits.len() + 1);
+            let max = run["max"].as_u64().unwrap();
+            if let Some(st) = &r.last {
+                let c = complete(&cx, st, max);
+                println!("after limits {:?}: state {}; complete(state, {max}) = {}", r.limits, susp_json(&susp_of(st)), res_json(&c));
+                bad = check_budget(&w, max, &c);
+            } else {
+                println!("the chunk prefix no longer ends suspended: {}", end_json(&r.end));
+            }
+        }
+        "signal" => {
+            let limit = run["limit"].as_u64().unwrap();
+            let steps: Vec<(u64, u8)> = run["commands_us"].as_array().unwrap().iter().map(|p| (p[0].as_u64().unwrap(), p[1].as_u64().unwrap() as u8)).collect();
+            let (r, _) = run_signal(&cx, rt, limit, &Sig::Timed(steps));
+            println!("resumable_verify_with_signal({limit}) = {}", res_json(&r));
+            bad = check_budget(&w, limit, &r);
+        }
+        "signal_at_pause" => {
+            let limit = run["limit"].as_u64().unwrap();
+            let (r, landed) = run_signal(&cx, rt, limit, &Sig::AtPause);
+            println!("resumable_verify_with_signal({limit}), suspend at the debug pause (landed: {landed}) = {}", res_json(&r));
+            bad = check_budget(&w, limit, &r);
+        }
+        k => println!("unknown run kind {k}"),
+    }
+    match bad {
+        Some(m) => {
+            println!("PROPERTY VIOLATED: {m}");
+            std::process::exit(1)
+        }
+        None => {
+            println!("property holds on this case now");
+            std::process::exit(0)
+        }
+    }
 }
